@@ -273,7 +273,7 @@ def _sim_setup(ctx):
     return ns, table, M, F, I, K, idx
 
 
-@harness("blocks.simulation_step(found_index;add)", props=["C01"],
+@harness("blocks.simulation_step(found_index;add)", props=["C01", "C09", "C06"],
          functions=["code_data._blocks.ToArgs.found_index", "code_data._blocks.FromArgs.add", "code_data._blocks.FromArgs.__setitem__", "code_data._blocks.FromArgs.__len__"],
          configs="any",
          assumes=["meta-step: induction over the operand occurrence sequence once base and step are proved",
